@@ -1,4 +1,5 @@
 """C04 — closures capture definition-time values; calls are call-site independent (DESIGN §4 C04)."""
+import re
 from lib import hir as H
 from lib import mir as M
 from lib import sig as S
@@ -382,6 +383,15 @@ def capture_at_creation(ctx, rid, core):
                 cut.append("%s at %s" % (x["name"], H.loc(x)))
         if cut:
             verdict1 = False
+        # what is captured is computed from this function literal and this environment, every time: a table kept between evaluations
+        # (keyed by source offsets, which repeat across input functions, REPL lines and cells) hands a closure another closure's names
+        kept = sorted({(x["res"].get("def") or "") for x in H.walk(lam["body"]) if H.kind(x) == "Path" and isinstance(x.get("res"), dict) and x["res"].get("dk") in ("Static", "Const")
+                       and re.search(r"LocalKey|Mutex|RwLock|RefCell|OnceLock|LazyLock|Atomic", x.get("ty") or "")})
+        if kept:
+            verdict1 = False
+            ctx.inst(rid, "capture#stateless", False, "the function-literal arm reads / writes %s: the captured names of one literal can come from an earlier one" % kept, H.loc(lam["body"]))
+        else:
+            ctx.inst(rid, "capture#stateless", True, "the function-literal arm keeps nothing between evaluations", H.loc(lam["body"]))
         ctx.inst(rid, "capture#from-definition-environment", verdict1,
                  "free names of the body are collected once (on the body: %s) and each is looked up in the defining environment: %s" % (on_body, looked_up), H.loc(lam["body"]))
         # parameters are excluded: the bound set handed to the analysis is seeded from the parameter list
@@ -560,6 +570,10 @@ def run(ctx):
                         oks = all(y[0] == "param" for y in a0) and all(y[0] in ("call", "param") and ("scope" in (y[2] if y[0] == "param" else y[3]) or (y[0] == "call" and y[1].endswith("CapturedScope::as_rc"))) for y in a1)
                         ctx.inst("C04.R2", "body-env#captured-scope", oks, "extend_shared(%s, %s)" % ([y[:2] for y in a0], [y[:2] for y in a1]), fc.loc(x[2]))
     parameters_last(ctx, "C04.R2", core)
+    # the self name is bound to the function that is being called - at every call site the `this` argument is the value the
+    # definition was taken from (an operand handed over instead makes a recursive function call its own argument)
+    from rules import c13 as c13__
+    c13__.this_pairing(ctx, "C04.R2", core)
     # nothing about how the body's environment is put together is decided by looking at the caller's environment: the one read of it
     # is the session-constant `inputs`
     hfc = core.hir_fn(FCALL)
